@@ -240,13 +240,13 @@ pub fn main(args: &[String]) -> i32 {
     writeln!(out, "{}", json!({"ev":"header","prop":"C15","n":scen.len(),
         "pool": w.members.keys().collect::<Vec<_>>()})).unwrap();
     // sanity of the pool itself: the harness's notion of valid / invalid members
+    // (valid by construction: honest proofs with their own statement and key; invalid by construction: a changed
+    // evaluation, a changed public input, another key, a dropped public input, garbage, truncation, one trailing byte);
+    // the batch of one must agree with the construction - a trace line, judged by Batch_Trace
     for (name, m) in w.members.iter() {
         let v = single_verdict(&w, m);
         let expect_ok = matches!(name.as_str(), "m0" | "m1" | "s0");
-        if (v == "ok") != expect_ok {
-            eprintln!("HARNESS-ERROR pool member {name} single verdict {v}");
-            return 2;
-        }
+        writeln!(out, "{}", json!({"ev":"Pool","name":name,"expect_ok":expect_ok,"single":v})).unwrap();
     }
     for sc in scen.iter() {
         run_batch(&w, sc, &mut out);
